@@ -75,6 +75,14 @@ theorem step_ent (s : State) (op : Op) (j : Nat) (e : Ent) (h : s.ents[j]? = som
           · exact ⟨e, h, .same⟩
           · refine ⟨e, ?_, .same⟩
             simp only [List.getElem?_append_left hj, h]
+  | copy src p =>
+    simp only [step]
+    split
+    · split
+      · exact ⟨e, h, .same⟩
+      · refine ⟨e, ?_, .same⟩
+        simp only [List.getElem?_append_left hj, h]
+    · exact ⟨e, h, .same⟩
   | call e0 via m o =>
     simp only [step]
     split
@@ -171,13 +179,33 @@ theorem step_ent (s : State) (op : Op) (j : Nat) (e : Ent) (h : s.ents[j]? = som
         · exact ⟨e, rfl, .same⟩
   | reopen a => exact ⟨e, h, .same⟩
 
-/-- entities that appear: only `create`, with both stamps = the text of the clock -/
+/-- entities that appear: by `create`, with both stamps = the text of the clock, or by `copy`, with the
+stored stamps of an entity that exists already -/
 theorem step_new (s : State) (op : Op) (j : Nat) (e' : Ent) (hj : s.ents.length ≤ j)
     (h : (step s op).1.ents[j]? = some e') :
-    ∃ v, timeToStr s.clock = .ok v ∧ e'.created = some v ∧ e'.updated = some v := by
+    (∃ v, timeToStr s.clock = .ok v ∧ e'.created = some v ∧ e'.updated = some v) ∨
+    (∃ (src : Nat) (se : Ent), s.ents[src]? = some se ∧ e'.created = se.created ∧ e'.updated = se.updated) := by
   have hnone : s.ents[j]? = none := List.getElem?_eq_none hj
   have absurd_same : (s.ents[j]? = some e') → False := by rw [hnone]; intro x; cases x
   cases op with
+  | copy src p =>
+    simp only [step] at h
+    split at h
+    · rename_i se pe hse hpe
+      split at h
+      · exact (absurd_same h).elim
+      · right
+        refine ⟨src, se, (aliveAt_some hse).1, ?_⟩
+        simp only at h
+        rcases Nat.lt_or_ge j (s.ents.length + 1) with hlt | hge
+        · have hje : j = s.ents.length := by omega
+          subst hje
+          simp at h
+          subst h
+          exact ⟨rfl, rfl⟩
+        · rw [List.getElem?_eq_none (by simp; omega)] at h
+          cases h
+    · exact (absurd_same h).elim
   | create k p inp =>
     simp only [step] at h
     split at h
@@ -190,6 +218,7 @@ theorem step_new (s : State) (op : Op) (j : Nat) (e' : Ent) (hj : s.ents.length 
         · split at h
           · exact (absurd_same h).elim
           · rename_i v hv
+            left
             refine ⟨v, hv, ?_⟩
             simp only at h
             rcases Nat.lt_or_ge j (s.ents.length + 1) with hlt | hge
